@@ -271,10 +271,6 @@ func init() {
 		if s.Val(v, "prelude") == "hop-learned" && !hasNext {
 			return false
 		}
-		// the large body is crossed with the deciding features, not with spellings and preludes
-		if v[s.idx("body")] != 0 && (v[s.idx("prelude")] != 0 || v[s.idx("names")] != 0 || v[s.idx("hoplr")] != 0 || v[s.idx("hopport")] > 1 || s.Val(v, "keep") != "off") {
-			return false
-		}
 		if !hasNext {
 			// hop features are irrelevant without a next-hop Route entry
 			for _, f := range []string{"hophost", "hopport", "hoptransport", "hoplr"} {
@@ -282,22 +278,33 @@ func init() {
 					return false
 				}
 			}
+		}
+		return true
+	}
+	s.Reduce = func(v []int) bool {
+		r := s.Val(v, "route")
+		hasNext := r == "own+next" || r == "next" || r == "next+further" || r == "own-alias+next"
+		// the large body is crossed with the deciding features, not with spellings and preludes
+		if v[s.idx("body")] != 0 && (v[s.idx("prelude")] != 0 || v[s.idx("names")] != 0 || v[s.idx("hoplr")] != 0 || v[s.idx("hopport")] > 1 || s.Val(v, "keep") != "off") {
+			return true
+		}
+		if !hasNext {
 			if s.Val(v, "keep") != "off" && s.Val(v, "keep") != "true" {
-				return false
+				return true
 			}
 		} else {
 			// with a next-hop Route entry the lower-precedence rules are exercised on a reduced set
 			if v[s.idx("names")] != 0 || v[s.idx("backends")] != 0 {
-				return false
+				return true
 			}
 			if ru := s.Val(v, "ruri"); ru != "foreign" && ru != "service-host" && ru != "listener" {
-				return false
+				return true
 			}
 			if tb := s.Val(v, "table"); tb != "no-default" && tb != "default-udp" {
-				return false
+				return true
 			}
 		}
-		return true
+		return false
 	}
 	addCheck(&Check{ID: "C03", Level: "exploration",
 		Rule:   "complete product of the decision-table features (Route shape x next-hop URI host/port/transport/lr x To host (no match, exact, wildcard, exact under a wildcard, second / third destination of a multi-destination entry) x static table x Request-URI class x keep-next-hop x arrival transport x service-name list x backends x history prelude {none, next hop learned, the same request received earlier through the other listener} x body {none, 2000 bytes}), each case on a fresh world started through the real startProxy, and a second pass in which all cases of one configuration are fed one after the other into ONE long-lived world (history independence of the decision); the oracle inspects the set of ALL packets and connection attempts the simulated network saw until quiescence; non-trivial = the request is not simply dropped",
